@@ -169,10 +169,10 @@ type Session struct {
 	// between
 	HoldRefused bool
 	// PeBox (Mode.Reuse): the shared persister; set it to share one with another Session
-	PeBox       *PeBox
-	held        *engine.DefaultEngine
-	heldPe      *persist.Persister
-	heldWait    int
+	PeBox    *PeBox
+	held     *engine.DefaultEngine
+	heldPe   *persist.Persister
+	heldWait int
 	// NoFlush: never call Flush (C17: asking for output before executing)
 }
 
